@@ -18,6 +18,7 @@ use syn::{
     Member, Pat, PathArguments, ReturnType, Stmt, Type, TypeParamBound, UnOp,
 };
 
+mod derived;
 mod table;
 
 #[derive(Clone, Debug, PartialEq)]
@@ -3817,6 +3818,32 @@ fn main() {
         let p = out.join(format!("{}.lean", ent.module));
         let old = std::fs::read_to_string(&p).unwrap_or_default();
         if old != lean {
+            std::fs::write(&p, lean).unwrap();
+        }
+    }
+    // the derived-operator layer (provided methods of ObservableExt)
+    {
+        let parse = |f: &std::path::Path| -> Vec<Item> {
+            std::fs::read_to_string(f).ok().and_then(|t| syn::parse_file(&t).ok()).map(|f| f.items).unwrap_or_default()
+        };
+        let obs_items = parse(&src.join("observable.rs"));
+        let mut ops_files: Vec<Vec<Item>> = vec![parse(&src.join("ops.rs"))];
+        if let Ok(rd) = std::fs::read_dir(src.join("ops")) {
+            let mut paths: Vec<_> = rd.filter_map(|e| e.ok()).map(|e| e.path()).filter(|p| p.extension().map(|x| x == "rs").unwrap_or(false)).collect();
+            paths.sort();
+            for pth in paths {
+                ops_files.push(parse(&pth));
+            }
+        }
+        let (body, f) = derived::translate_derived(&obs_items, &ops_files, table::DERIVED);
+        failed += f;
+        let mut lean = String::new();
+        writeln!(lean, "/- GENERATED by /verif/rs2lean from src/observable.rs (provided methods of ObservableExt), src/ops.rs and the `new` functions of src/ops/*.rs — do not edit. -/").unwrap();
+        writeln!(lean, "import RxModel.Gen.Prelude\nimport RxModel.Spec.ListSem\nset_option linter.unusedVariables false\nnamespace Rx.Gen.Derived\nopen Rx\n").unwrap();
+        lean += &body;
+        writeln!(lean, "end Rx.Gen.Derived").unwrap();
+        let p = out.join("Derived.lean");
+        if std::fs::read_to_string(&p).unwrap_or_default() != lean {
             std::fs::write(&p, lean).unwrap();
         }
     }
